@@ -119,7 +119,7 @@ class FakeACSE:
     def is_aborted(self, *a):
         return self.aborted
 
-    def is_release_requested(self):
+    def is_release_requested(self, consume=True):
         return self.release_requested
 
     def send_abort(self, source=0):
